@@ -109,7 +109,21 @@ func planC14(tier string, root *simcore.RNG) *plan {
 		}
 		add(b, "append-self")
 	}
-	enumerated := len(cases)
+	// arbitrary bytes and random token soups (no fault operator needed: the base is the fault)
+	nrand := 150
+	if thorough {
+		nrand = 3000
+	}
+	for i := 0; i < nrand; i++ {
+		r := root.Fork()
+		sz := []int{0, 1, 5, 79, 80, 83, 84, 85, 133, 134, 135, 500, 4096}[r.Intn(13)]
+		if r.Intn(3) == 0 {
+			sz = r.Intn(3000)
+		}
+		cases = append(cases, lcase{base: fmt.Sprintf("rand:%d:%d", sz, r.Intn(1<<30)), entry: "LoadSTL"})
+		cases = append(cases, lcase{base: fmt.Sprintf("tokens:%d:%d", 1+r.Intn(60), r.Intn(1<<30)), entry: "LoadSTL"})
+	}
+	enumerated := len(cases) - 2*nrand
 	// S: sampled multi-fault sequences, incl. the shipped files
 	nsample := 1500
 	if thorough {
@@ -186,7 +200,8 @@ func planC14(tier string, root *simcore.RNG) *plan {
 		}
 		var keys []string
 		for _, jr := range o.res.Jobs {
-			if jr.FaultFired {
+			j0 := findJob(o.sc, jr.ID)
+			if jr.FaultFired || (j0 != nil && (strings.HasPrefix(j0.Base, "rand:") || strings.HasPrefix(j0.Base, "tokens:") || strings.HasPrefix(j0.Base, "crash:"))) {
 				if j := findJob(o.sc, jr.ID); j != nil {
 					keys = append(keys, j.Model+"|"+j.Base+"|"+strings.Join(j.Ops, ","))
 				}
@@ -195,9 +210,9 @@ func planC14(tier string, root *simcore.RNG) *plan {
 		return len(o.res.Jobs), keys
 	}
 	pl.exhaust = true
-	pl.extra = map[string]any{"enumerated_cases": enumerated, "sampled_multi_fault_cases": nsample,
+	pl.extra = map[string]any{"enumerated_cases": enumerated, "sampled_multi_fault_cases": nsample, "arbitrary_byte_and_token_soup_cases": 2 * nrand,
 		"exhaustive_subspace": "every truncation offset of 9 small binary/streamed/ASCII files; every bit of the count field of 3 binary files (alone, padded to match, +50 bytes); every flush-index crash image of the streaming writer for 200 and 1000 triangles; every line x {drop, dup, half-written at 6 columns, stray token, 13 malformed numbers} of 3 ASCII files; every single/pair sector fault of a 5-sector binary and a 4-sector ASCII file. Multi-fault sequences and the shipped files are sampled."}
-	pl.rule = "case = base file (SaveSTL / ToSTL / harness-written ASCII / crash image of the streaming writer / shipped files) + 0..4 storage-fault operators (truncate at byte n, zeroed / duplicated / swapped / PRNG-filled 512-byte sector, bit flip, count rewrite, trailing zeros / garbage / second copy, padding that makes 84+50*count match again, dropped / duplicated / half-written line, stray token, malformed number, CRLF) loaded with render.LoadSTL and, for a quarter of the cases, obj.ImportSTL. Oracle: returns a mesh or an error; a recovered panic, no return within 20 s, or TotalAlloc growth above 1 MiB + 64 x file size is a violation. Non-trivial = at least one operator changed the file; distinct = (entry point, base, operators)."
+	pl.rule = "case = base file (SaveSTL / ToSTL / harness-written ASCII / crash image of the streaming writer / shipped files / arbitrary bytes / random STL-token soup) + 0..4 storage-fault operators (truncate at byte n, zeroed / duplicated / swapped / PRNG-filled 512-byte sector, bit flip, count rewrite, trailing zeros / garbage / second copy, padding that makes 84+50*count match again, dropped / duplicated / half-written line, stray token, malformed number, CRLF) loaded with render.LoadSTL and, for a quarter of the cases, obj.ImportSTL. Oracle: returns a mesh or an error; a recovered panic, no return within 20 s, or TotalAlloc growth above 1 MiB + 64 x file size is a violation. Non-trivial = at least one operator changed the file; distinct = (entry point, base, operators)."
 	pl.assume = []string{
 		"the claim is totality over the storage-fault closure of valid files (what a disk produces), not over adversarial byte strings; arbitrary bytes are reached only through PRNG-filled sectors and appended garbage",
 		"a hang is judged by a 20 s wall-clock bound on sequential code (files <= 0.5 MB load in milliseconds)",
